@@ -425,7 +425,10 @@ func runC06(c C06Case) (v *Violation, st c06Stats) {
 			s.event("start")
 			var keptIt *iavl.ImmutableTree
 			var keptVer int64
+			var kbuf []byte // every reader asks through ONE reused key buffer (a client that decodes requests into a scratch buffer)
 			for _, op := range script {
+				kbuf = append(kbuf[:0], op.K...)
+				op.K = kbuf
 				ver := op.V
 				var it *iavl.ImmutableTree
 				if op.Keep && keptIt != nil {
@@ -453,7 +456,9 @@ func runC06(c C06Case) (v *Violation, st c06Stats) {
 					if ver >= v0 && !c.Skip && (op.Kind == "get" || op.Kind == "has" || op.Kind == "iterator") {
 						// possibly the transient window of F12: decided after the run
 						smu.Lock()
-						suspects = append(suspects, suspect{obs, fmt.Sprintf(f, a...), ver, op, th, it})
+						sop := op
+						sop.K = append([]byte{}, op.K...) // (op.K is the reader's reused buffer)
+						suspects = append(suspects, suspect{obs, fmt.Sprintf(f, a...), ver, sop, th, it})
 						smu.Unlock()
 						return
 					}
